@@ -41,6 +41,11 @@ func VerifC18Lifecycle() {
 			} else {
 				vAssert(err == nil, "lifecycle/balanced-shutdown-ok")
 				started--
+				if started == 0 {
+					// the checker has stopped by the time the last Shutdown returns (no settling first): a check
+					// still in flight must not take measurements or flip the refusing state afterwards
+					vAssert(vLiveGoroutines() == 0, "lifecycle/checker-has-stopped-when-the-last-shutdown-returns")
+				}
 			}
 		case 2:
 			ml.CheckMemLimits()
